@@ -30,14 +30,14 @@ ConfOf(c) == IF "dh" \in DOMAIN c
                    subs |-> [h \in H |-> c.subs[h]]]
              ELSE IF "res" \in DOMAIN c
              THEN [hc |-> HcOf(c), order |-> c.order, lifecycle |-> c.lifecycle, ctimeout |-> c.ctimeout,
-                   res |-> [ssub |-> c.res.ssub, vals |-> {}]]
+                   res |-> [ssub |-> c.res.ssub, vals |-> {}, ev |-> c.res.ev, idle |-> c.res.idle]]
              ELSE [hc |-> HcOf(c), order |-> c.order, lifecycle |-> c.lifecycle, ctimeout |-> c.ctimeout]
 TInit ==
   /\ tid \in 1..Len(Traces) /\ l = 1 /\ bad = "none" /\ exc = "none"
   /\ conf = ConfOf(Traces[tid].conf)
   /\ LET i == Traces[tid].init
          o == [exists |-> TRUE, rv |-> 1, ess |-> i.ess, lh |-> 0, prog |-> [h \in H |-> NoRec], fins |-> <<>>,
-               deleting |-> FALSE, dummy |-> 0, match |-> i.match, res |-> [h \in H |-> 0]]
+               deleting |-> FALSE, dummy |-> 0, match |-> i.match, res |-> [h \in H |-> 0], evres |-> 0]
      IN /\ obj = o /\ chan = (IF i.up THEN << Snap("ADDED", o) >> ELSE <<>>) /\ bl = <<>>
         /\ now = i.t /\ up = i.up
   /\ stopping = FALSE /\ mem = FreshMem /\ wk = FreshWk /\ pc = "idle" /\ cyc = NoCyc
@@ -57,7 +57,7 @@ ProgOf(p) == [h \in H |-> [st |-> p[h].st, r |-> p[h].r, pu |-> p[h].pu, until |
                            first |-> IF AnyTimeout /\ p[h].st # "none" THEN p[h].first ELSE 0]]
 ObjIs(o, e) == /\ o.rv = e.rv /\ o.ess = e.ess /\ o.lh = e.lh /\ o.prog = ProgOf(e.prog) /\ o.fins = e.fins
                /\ o.deleting = e.deleting /\ (o.dummy # 0) = e.dummy /\ o.match = e.match
-               /\ ("res" \in DOMAIN e => o.res = [h \in H |-> e.res[h]])
+               /\ ("res" \in DOMAIN e => o.res = [h \in H |-> e.res[h]] /\ o.evres = e.evres)
 
 TEdit    == Ev("edit") /\ (UserEdit(E.ess) \/ Toggle(E.ess)) /\ ObjIs(obj', E)
 TDelete  == Ev("delete") /\ UserDelete /\ obj'.rv = E.rv /\ obj'.exists = ~E.gone
@@ -77,7 +77,7 @@ TJson    == Ev("json") /\ SrvJson
             /\ CASE E.code = 404 -> ~obj.exists
                  [] E.code = 422 -> obj.exists /\ obj.rv # cyc.fresh
                  [] OTHER -> obj.exists /\ obj.rv = cyc.fresh /\ obj'.fins = E.fins /\ obj'.rv = E.rv /\ obj'.exists = ~E.gone
-TEnd     == Ev("end") /\ Post /\ cyc.rv = E.rv
+TEnd     == Ev("end") /\ Post /\ RetRv = E.rv
 TKill    == Ev("kill") /\ IF up THEN Kill ELSE UNCHANGED <<obj, chan, bl, up, stopping, mem, wk, pc, cyc, now, bud, gh>>
 TStop    == Ev("stop") /\ Stop
 TDown    == Ev("down") /\ IF up THEN Down ELSE UNCHANGED <<obj, chan, bl, up, stopping, mem, wk, pc, cyc, now, bud, gh>>
@@ -101,7 +101,7 @@ TLive    == Ev("livelock") /\ UNCHANGED <<obj, chan, bl, up, stopping, mem, wk, 
 TQuiet   == Ev("quiet") /\ ~ENABLED Urgent /\ (up => chan = <<>> /\ bl = <<>>)
             /\ UNCHANGED <<obj, chan, bl, up, stopping, mem, wk, pc, cyc, now, bud, gh>>
 
-Silent == (CWaitWoken \/ CWaitTimeout \/ ProcFinish \/ Reply1 \/ SleepWake \/ SleepExpire \/ ParentEnd \/ (\E h \in H : InvokeTimeout(h))
+Silent == (CWaitWoken \/ CWaitTimeout \/ ProcFinish \/ Reply1 \/ PostNoop \/ WorkerExit \/ SleepWake \/ SleepExpire \/ ParentEnd \/ (\E h \in H : InvokeTimeout(h))
            \/ (\E h \in DHs : StopSet(h) \/ Stage(h) \/ StageC(h) \/ KCancel(h) \/ KDrop(h) \/ REnd(h)) \/ Decide \/ KillerExit \/ WorkerAbort) /\ Keep
 Advance == /\ l <= Len(T) /\ E.t > now /\ ~ENABLED Urgent
            /\ now' = now + 1          \* second by second: a deadline in between may not be jumped over
